@@ -41,8 +41,8 @@ func runC25(c *an.Ctx) {
 	p := c.P
 	const ip = "ipns"
 	validate := p.Func(ip, "", "Validate")
-	fPB, fNode := p.Field(ip, "Record", "pb"), p.Field(ip, "Record", "node")
-	if !c.Need(validate != nil && len(validate.Params) == 2, "ipns.Validate(rec, pk)") || !c.Need(fPB != nil && fNode != nil, "ipns.Record fields pb,node") {
+	fPB, fNode := c25RecordFields(p)
+	if !c.Need(validate != nil && len(validate.Params) == 2, "ipns.Validate(rec, pk)") || !c.Need(fPB != nil && fNode != nil, "ipns.Record fields holding the protobuf (*pb.IpnsRecord) and the decoded node (datamodel.Node)") {
 		return
 	}
 	maxSize, ok := c25ConstInt(p, ip, "MaxRecordSize")
@@ -51,7 +51,7 @@ func runC25(c *an.Ctx) {
 	}
 	vname := an.FuncName(validate)
 	rec, pk := validate.Params[0], validate.Params[1]
-	root := c25Env{fn: validate, path: map[string]string{"rec": "p:" + rec.Name(), "pb": "p:" + rec.Name() + ".pb", "pk": "p:" + pk.Name()}}
+	root := c25Env{fn: validate, path: map[string]string{"rec": "p:" + rec.Name(), "pb": "p:" + rec.Name() + "." + c25PBName, "pk": "p:" + pk.Name()}}
 	family := c25EnvFamily(root)
 
 	succ, undec := c25SuccessReturns(validate, 0)
@@ -149,8 +149,8 @@ func runC25(c *an.Ctx) {
 				why = "signature data computed from " + c25Desc(h.Call.Args[0]) + ", not from rec.pb.Data"
 			}
 		}
-		c.Check(okMsg, "O2", "R-FLOW", vn, "Verify.msg=sigdata(rec.pb.Data)", verify.Pos(), "verified message is sigdata(rec.pb.GetData())", "pk.Verify message: "+why+" — the signature does not cover the record's own Data")
-		c.Check(c25IsPbRead(args[1], "SignatureV2", verifyEnv.path["pb"]), "O2", "R-FLOW", vn, "Verify.sig=rec.pb.SignatureV2", verify.Pos(), "verified signature is rec.pb.GetSignatureV2()", "pk.Verify is given "+c25Desc(args[1])+" instead of rec.pb.SignatureV2")
+		c.Check(okMsg, "O2", "R-FLOW", vn, "Verify.msg=sigdata(record Data)", verify.Pos(), "verified message is sigdata(rec.pb.GetData())", "pk.Verify message: "+why+" — the signature does not cover the record's own Data")
+		c.Check(c25IsPbRead(args[1], "SignatureV2", verifyEnv.path["pb"]), "O2", "R-FLOW", vn, "Verify.sig=record SignatureV2", verify.Pos(), "verified signature is rec.pb.GetSignatureV2()", "pk.Verify is given "+c25Desc(args[1])+" instead of rec.pb.SignatureV2")
 	}
 	// ---- O1.e CBOR/protobuf match
 	matchIn := func(e c25Env) (*ssa.Call, *ssa.Function) {
@@ -361,20 +361,23 @@ func c25MatchTable(c *an.Ctx, fn *ssa.Function) {
 	succ, _ := c25SuccessReturns(fn, 0)
 	c.Min("O3 success returns of the match helper", len(succ), 1)
 	// cborSide: v = conv(Extract0(node.AsX())) with node = Extract0(full.LookupByString(K))
-	cborSide := func(v ssa.Value) (key string, full ssa.Value, ok bool) {
+	cborSide := func(v ssa.Value) (key ssa.Value, full ssa.Value, ok bool) {
 		as, ok1 := c25RootCall(v, an.M("", "", "AsBytes"), an.M("", "", "AsInt"), an.M("", "", "AsString"))
 		if !ok1 || !as.Call.IsInvoke() {
-			return "", nil, false
+			return nil, nil, false
 		}
 		lk, ok2 := c25RootCall(as.Call.Value, an.M("", "", "LookupByString"))
 		if !ok2 || !lk.Call.IsInvoke() {
-			return "", nil, false
+			return nil, nil, false
 		}
-		k, ok3 := an.ConstOf(lk.Call.Args[0])
-		if !ok3 || k.Kind() != constant.String {
-			return "", nil, false
+		return lk.Call.Args[0], lk.Call.Value, true
+	}
+	constKey := func(v ssa.Value) (string, bool) {
+		k, ok := an.ConstOf(v)
+		if !ok || k.Kind() != constant.String {
+			return "", false
 		}
-		return constant.StringVal(k), lk.Call.Value, true
+		return constant.StringVal(k), true
 	}
 	pbSide := func(v ssa.Value) (string, bool) {
 		for g := range c25Legacy {
@@ -390,28 +393,64 @@ func c25MatchTable(c *an.Ctx, fn *ssa.Function) {
 		edges  an.EdgeSet
 		pos    token.Pos
 		ne     an.EdgeSet
+		row    *c25RowRd // the operands are read from the row of a local literal table scanned by a range loop
+	}
+	type pairT struct {
+		g, key string
+		full   ssa.Value
+		row    *c25RowRd
 	}
 	var sites []cmpSite
-	pair := func(a, b ssa.Value) (g, key string, full ssa.Value, ok bool) {
-		if g, ok1 := pbSide(a); ok1 {
-			if k, f, ok2 := cborSide(b); ok2 {
-				return g, k, f, true
-			}
+	pair1 := func(a, b ssa.Value) []pairT {
+		kv, full, ok := cborSide(b)
+		if !ok {
+			return nil
 		}
-		if g, ok1 := pbSide(b); ok1 {
-			if k, f, ok2 := cborSide(a); ok2 {
-				return g, k, f, true
+		if k, isK := constKey(kv); isK {
+			if g, ok1 := pbSide(a); ok1 {
+				return []pairT{{g, k, full, nil}}
 			}
+			return nil
 		}
-		return "", "", nil, false
+		// table-driven form: for _, f := range []struct{key; pbValue}{...} { compare(f.pbValue, cbor[f.key]) }
+		ra, okA := c25RowRead(a)
+		rk, okK := c25RowRead(kv)
+		if !okA || !okK || ra.arr != rk.arr || ra.idx != rk.idx {
+			return nil
+		}
+		rows, okT := c25TableRows(ra.arr)
+		if !okT || len(rows) == 0 {
+			return nil
+		}
+		var out []pairT
+		for _, row := range rows {
+			va, vk := row[ra.fld], row[rk.fld]
+			if va == nil || vk == nil {
+				return nil
+			}
+			g, ok1 := pbSide(va)
+			k, ok2 := constKey(vk)
+			if !ok1 || !ok2 {
+				return nil
+			}
+			r := ra
+			out = append(out, pairT{g, k, full, &r})
+		}
+		return out
+	}
+	pair := func(a, b ssa.Value) []pairT {
+		if ps := pair1(a, b); len(ps) > 0 {
+			return ps
+		}
+		return pair1(b, a)
 	}
 	an.Instrs(fn, func(in ssa.Instruction) {
 		switch x := in.(type) {
 		case *ssa.Call:
 			ci := an.Callee(x)
 			if (ci.Pkg == "bytes" && ci.Name == "Equal" || ci.Pkg == "slices" && ci.Name == "Equal") && len(x.Call.Args) == 2 {
-				if g, k, f, ok := pair(x.Call.Args[0], x.Call.Args[1]); ok {
-					sites = append(sites, cmpSite{g, k, f, an.BoolEdges(fn, []ssa.Value{x}, true), x.Pos(), an.BoolEdges(fn, []ssa.Value{x}, false)})
+				for _, pr := range pair(x.Call.Args[0], x.Call.Args[1]) {
+					sites = append(sites, cmpSite{pr.g, pr.key, pr.full, an.BoolEdges(fn, []ssa.Value{x}, true), x.Pos(), an.BoolEdges(fn, []ssa.Value{x}, false), pr.row})
 				}
 			}
 		case *ssa.BinOp:
@@ -420,18 +459,18 @@ func c25MatchTable(c *an.Ctx, fn *ssa.Function) {
 				for _, side := range [][2]ssa.Value{{x.X, x.Y}, {x.Y, x.X}} {
 					if cc, ok := side[0].(*ssa.Call); ok && c25IsInt(0)(side[1]) {
 						if ci := an.Callee(cc); ci.Pkg == "bytes" && ci.Name == "Compare" && len(cc.Call.Args) == 2 {
-							if g, k, f, ok := pair(cc.Call.Args[0], cc.Call.Args[1]); ok {
+							for _, pr := range pair(cc.Call.Args[0], cc.Call.Args[1]) {
 								e := c25RelEdges(fn, func(v ssa.Value) bool { return v == side[0] }, func(v ssa.Value) bool { return v == side[1] }, c25EQ, 0)
 								ne := c25RelEdges(fn, func(v ssa.Value) bool { return v == side[0] }, func(v ssa.Value) bool { return v == side[1] }, c25NE, 0)
-								sites = append(sites, cmpSite{g, k, f, e, x.Pos(), ne})
+								sites = append(sites, cmpSite{pr.g, pr.key, pr.full, e, x.Pos(), ne, pr.row})
 							}
 						}
 					}
 				}
-				if g, k, f, ok := pair(x.X, x.Y); ok {
+				for _, pr := range pair(x.X, x.Y) {
 					e := c25RelEdges(fn, func(v ssa.Value) bool { return v == x.X }, func(v ssa.Value) bool { return v == x.Y }, c25EQ, 0)
 					ne := c25RelEdges(fn, func(v ssa.Value) bool { return v == x.X }, func(v ssa.Value) bool { return v == x.Y }, c25NE, 0)
-					sites = append(sites, cmpSite{g, k, f, e, x.Pos(), ne})
+					sites = append(sites, cmpSite{pr.g, pr.key, pr.full, e, x.Pos(), ne, pr.row})
 				}
 			}
 		}
@@ -444,7 +483,8 @@ func c25MatchTable(c *an.Ctx, fn *ssa.Function) {
 	for _, g := range gs {
 		want := c25Legacy[g]
 		edges := an.EdgeSet{}
-		n, nbad := 0, 0
+		n, nbad, nRow := 0, 0, 0
+		scanned := false
 		pos := fn.Pos()
 		for _, s := range sites {
 			if s.g != g {
@@ -463,13 +503,22 @@ func c25MatchTable(c *an.Ctx, fn *ssa.Function) {
 				c.Bad("O3", "R-FLOW", name, "cbor."+want+" from entry.Data", s.pos, "the CBOR node compared with legacy field "+g+" is not decoded from entry.Data (the signed bytes)")
 				continue
 			}
+			if s.row != nil {
+				// every row is compared: the range loop over the table runs to exhaustion before any success return,
+				// and no iteration reaches the next one (or the end) except over the equal edge
+				if c25FullScan(fn, s.row, s.edges, succ) {
+					scanned = true
+				}
+				nRow++
+				continue
+			}
 			edges = edges.Union(s.edges)
 		}
 		if n == 0 {
 			c.Bad("O3", "R-TABLE", name, "pb."+g+"~cbor."+want, fn.Pos(), "legacy field "+g+" is not compared with the signed CBOR key "+want+": it can be changed without failing validation")
 			continue
 		}
-		if nbad > 0 && len(edges) == 0 {
+		if nbad > 0 && len(edges) == 0 && nRow == 0 {
 			continue
 		}
 		good := len(edges) > 0
@@ -478,6 +527,7 @@ func c25MatchTable(c *an.Ctx, fn *ssa.Function) {
 				good = false
 			}
 		}
+		good = good || scanned
 		c.Check(good, "O3", "R-TABLE", name, "pb."+g+"~cbor."+want, pos, "success only on the equal edge of pb."+g+" == cbor["+want+"]",
 			"the match helper can return nil without the equal edge of pb."+g+" vs cbor["+want+"] (comparison inverted or bypassed)")
 	}
@@ -516,6 +566,305 @@ func c25MatchTable(c *an.Ctx, fn *ssa.Function) {
 	}
 	c.Check(okRej, "O3", "R-DOM", name, "rejects only on mismatch", at, "every error the helper constructs itself lies on the not-equal edge of a table comparison (or on missing Data)",
 		"the match helper constructs an error on a path where none of the five comparisons is known unequal (a value-range or other extra rejection): records the constructor itself produces (e.g. sequence numbers above MaxInt64, stored as negative CBOR integers) fail validation")
+}
+
+// c25RowRd: a value read from field fld of element idx of the local literal table arr.
+type c25RowRd struct {
+	arr *ssa.Alloc
+	idx ssa.Value
+	fld int
+}
+
+// c25RowRead: v is T[idx].fld for a local array/slice literal T, read directly, through a loaded element or
+// through the per-iteration copy of a range loop variable.
+func c25RowRead(v ssa.Value) (c25RowRd, bool) {
+	for {
+		switch x := v.(type) {
+		case *ssa.Convert:
+			v = x.X
+			continue
+		case *ssa.ChangeType:
+			v = x.X
+			continue
+		case *ssa.ChangeInterface:
+			v = x.X
+			continue
+		}
+		break
+	}
+	elemLoad := func(w ssa.Value) (ssa.Value, ssa.Value, bool) {
+		ld, ok := w.(*ssa.UnOp)
+		if !ok || ld.Op != token.MUL {
+			return nil, nil, false
+		}
+		ia, ok := ld.X.(*ssa.IndexAddr)
+		if !ok {
+			return nil, nil, false
+		}
+		return ia.X, ia.Index, true
+	}
+	var S, idx ssa.Value
+	fld := -1
+	switch x := v.(type) {
+	case *ssa.Field:
+		s0, i0, ok := elemLoad(x.X)
+		if !ok {
+			return c25RowRd{}, false
+		}
+		S, idx, fld = s0, i0, x.Field
+	case *ssa.UnOp:
+		fa, ok := x.X.(*ssa.FieldAddr)
+		if !ok || x.Op != token.MUL {
+			return c25RowRd{}, false
+		}
+		fld = fa.Field
+		switch b := fa.X.(type) {
+		case *ssa.IndexAddr:
+			S, idx = b.X, b.Index
+		case *ssa.Alloc:
+			// the loop variable: one whole-struct store of the element, no field written separately, not escaping
+			var whole *ssa.Store
+			for _, r := range *b.Referrers() {
+				switch y := r.(type) {
+				case *ssa.Store:
+					if y.Addr != ssa.Value(b) || whole != nil {
+						return c25RowRd{}, false
+					}
+					whole = y
+				case *ssa.FieldAddr:
+					for _, rr := range *y.Referrers() {
+						if u, isU := rr.(*ssa.UnOp); isU && u.Op == token.MUL {
+							continue
+						}
+						if _, isD := rr.(*ssa.DebugRef); isD {
+							continue
+						}
+						return c25RowRd{}, false
+					}
+				case *ssa.DebugRef:
+				case *ssa.UnOp:
+				default:
+					return c25RowRd{}, false
+				}
+			}
+			if whole == nil || !an.Dominates(whole, x) {
+				return c25RowRd{}, false
+			}
+			s0, i0, ok := elemLoad(whole.Val)
+			if !ok {
+				return c25RowRd{}, false
+			}
+			S, idx = s0, i0
+		default:
+			return c25RowRd{}, false
+		}
+	default:
+		return c25RowRd{}, false
+	}
+	if sl, ok := S.(*ssa.Slice); ok {
+		S = sl.X
+	}
+	arr, ok := S.(*ssa.Alloc)
+	if !ok {
+		return c25RowRd{}, false
+	}
+	return c25RowRd{arr, idx, fld}, true
+}
+
+// c25TableRows: arr is a local array of structs filled once, element by element at constant indices (a slice or
+// array literal) and afterwards only read (indexed, len) through arr[:]; returns per row the value stored in each
+// field.
+func c25TableRows(arr *ssa.Alloc) ([]map[int]ssa.Value, bool) {
+	pt, ok := arr.Type().Underlying().(*types.Pointer)
+	if !ok {
+		return nil, false
+	}
+	at, ok := pt.Elem().Underlying().(*types.Array)
+	if !ok {
+		return nil, false
+	}
+	if _, isS := at.Elem().Underlying().(*types.Struct); !isS {
+		return nil, false
+	}
+	rows := make([]map[int]ssa.Value, at.Len())
+	for i := range rows {
+		rows[i] = map[int]ssa.Value{}
+	}
+	filled := make([]bool, at.Len())
+	set := func(k int64, f int, v ssa.Value) bool {
+		if _, dup := rows[k][f]; dup {
+			return false
+		}
+		rows[k][f] = v
+		return true
+	}
+	readOnly := func(ia *ssa.IndexAddr) bool {
+		for _, r := range *ia.Referrers() {
+			switch y := r.(type) {
+			case *ssa.UnOp:
+				if y.Op != token.MUL {
+					return false
+				}
+			case *ssa.FieldAddr:
+				for _, rr := range *y.Referrers() {
+					if u, isU := rr.(*ssa.UnOp); !isU || u.Op != token.MUL {
+						if _, isD := rr.(*ssa.DebugRef); !isD {
+							return false
+						}
+					}
+				}
+			case *ssa.DebugRef:
+			default:
+				return false
+			}
+		}
+		return true
+	}
+	// fields of a composite-literal temporary: every field stored at most once, the temporary only loaded whole
+	tmpFields := func(tmp *ssa.Alloc) (map[int]ssa.Value, bool) {
+		out := map[int]ssa.Value{}
+		for _, r := range *tmp.Referrers() {
+			switch y := r.(type) {
+			case *ssa.FieldAddr:
+				for _, rr := range *y.Referrers() {
+					st, isSt := rr.(*ssa.Store)
+					if !isSt || st.Addr != ssa.Value(y) {
+						if _, isD := rr.(*ssa.DebugRef); isD {
+							continue
+						}
+						return nil, false
+					}
+					if _, dup := out[y.Field]; dup {
+						return nil, false
+					}
+					out[y.Field] = st.Val
+				}
+			case *ssa.UnOp:
+				if y.Op != token.MUL {
+					return nil, false
+				}
+			case *ssa.DebugRef:
+			default:
+				return nil, false
+			}
+		}
+		return out, true
+	}
+	for _, r := range *arr.Referrers() {
+		switch x := r.(type) {
+		case *ssa.IndexAddr:
+			kc, isK := an.ConstOf(x.Index)
+			if !isK || kc.Kind() != constant.Int {
+				if !readOnly(x) {
+					return nil, false
+				}
+				continue
+			}
+			k, _ := constant.Int64Val(kc)
+			if k < 0 || k >= at.Len() {
+				return nil, false
+			}
+			for _, rr := range *x.Referrers() {
+				switch y := rr.(type) {
+				case *ssa.Store:
+					if y.Addr != ssa.Value(x) || filled[k] {
+						return nil, false
+					}
+					ld, isL := y.Val.(*ssa.UnOp)
+					if !isL || ld.Op != token.MUL {
+						return nil, false
+					}
+					tmp, isA := ld.X.(*ssa.Alloc)
+					if !isA {
+						return nil, false
+					}
+					fs, okF := tmpFields(tmp)
+					if !okF {
+						return nil, false
+					}
+					for f, v := range fs {
+						if !set(k, f, v) {
+							return nil, false
+						}
+					}
+					filled[k] = true
+				case *ssa.FieldAddr:
+					for _, r3 := range *y.Referrers() {
+						st, isSt := r3.(*ssa.Store)
+						if !isSt || st.Addr != ssa.Value(y) || !set(k, y.Field, st.Val) {
+							return nil, false
+						}
+					}
+				case *ssa.DebugRef:
+				default:
+					return nil, false
+				}
+			}
+		case *ssa.Slice:
+			if x.Low != nil || x.High != nil || x.Max != nil {
+				return nil, false
+			}
+			for _, rr := range *x.Referrers() {
+				switch y := rr.(type) {
+				case *ssa.IndexAddr:
+					if !readOnly(y) {
+						return nil, false
+					}
+				case *ssa.Call:
+					if _, isLen := an.IsBuiltinCall(y, "len"); !isLen {
+						return nil, false
+					}
+				case *ssa.DebugRef:
+				default:
+					return nil, false
+				}
+			}
+		case *ssa.DebugRef:
+		default:
+			return nil, false
+		}
+	}
+	return rows, true
+}
+
+// c25RowLoop: the range loop over the whole table whose current element rd reads.
+func c25RowLoop(fn *ssa.Function, rd *c25RowRd) *an.RangeLoop {
+	for _, l := range an.RangeLoops(fn) {
+		if l.Idx != rd.idx {
+			continue
+		}
+		sl, ok := l.Slice.(*ssa.Slice)
+		if !ok || sl.X != ssa.Value(rd.arr) || sl.Low != nil || sl.High != nil {
+			return nil
+		}
+		return l
+	}
+	return nil
+}
+
+// c25FullScan: the table row read rd belongs to a range loop over the whole table; every success return lies
+// behind the loop's exhaustion, and an iteration continues (or ends the loop) only over one of the edges eq.
+func c25FullScan(fn *ssa.Function, rd *c25RowRd, eq an.EdgeSet, succ []*ssa.Return) bool {
+	if len(eq) == 0 || len(succ) == 0 {
+		return false
+	}
+	if l := c25RowLoop(fn, rd); l != nil {
+		for _, r := range succ {
+			if !l.After(r) {
+				return false
+			}
+		}
+		for _, pred := range l.Header.Preds {
+			if !l.Contains(pred.Instrs[len(pred.Instrs)-1]) {
+				continue // loop entry
+			}
+			if !c27EdgeGuarded(fn, pred, l.Header, eq) {
+				return false
+			}
+		}
+		return true
+	}
+	return false
 }
 
 // c25DecodedFrom: node = B.Build() where dagcbor.Decode(B, bytes.NewReader(X))
@@ -787,7 +1136,7 @@ func c25NodeStores(c *an.Ctx, fPB, fNode *types.Var) {
 			_, base := an.FieldOf(st.Addr)
 			pbs := an.StoresToField(fn, fPB, base)
 			if len(pbs) == 0 {
-				c.Bad("O4", "R-FLOW", name, "Record.node~Record.pb.Data", st.Pos(), "Record.node is stored without the protobuf of the same Record being set in this function: accessors may report values unrelated to the signed Data")
+				c.Bad("O4", "R-FLOW", name, "decoded node~protobuf Data", st.Pos(), "Record.node is stored without the protobuf of the same Record being set in this function: accessors may report values unrelated to the signed Data")
 				continue
 			}
 			good, why := true, ""
@@ -798,10 +1147,10 @@ func c25NodeStores(c *an.Ctx, fPB, fNode *types.Var) {
 					if c25SameValue(srcPB, pbv) {
 						continue
 					}
-					good, why = false, "node decoded from the Data of "+c25Desc(srcPB)+", not from the Data of the protobuf stored in Record.pb"
+					good, why = false, "node decoded from the Data of "+c25Desc(srcPB)+", not from the Data of the protobuf stored in the Record"
 					continue
 				} else if src, ok := c25DecodedFrom(fn, st.Val); ok {
-					good, why = false, "node decoded from "+c25Desc(src)+", not from the Data of the protobuf stored in Record.pb"
+					good, why = false, "node decoded from "+c25Desc(src)+", not from the Data of the protobuf stored in the Record"
 					continue
 				}
 				// (b) constructor idiom: pb.Data = enc(node)
@@ -821,7 +1170,7 @@ func c25NodeStores(c *an.Ctx, fPB, fNode *types.Var) {
 					good, why = false, "node "+c25Desc(st.Val)+" is neither decoded from pb.Data nor the node whose DAG-CBOR encoding is stored in pb.Data"
 				}
 			}
-			c.Check(good, "O4", "R-FLOW", name, "Record.node~Record.pb.Data", st.Pos(), "Record.node corresponds to Record.pb.Data", "Record.node: "+why+" — accessors would report values that are not the signed ones")
+			c.Check(good, "O4", "R-FLOW", name, "decoded node~protobuf Data", st.Pos(), "Record.node corresponds to Record.pb.Data", "Record.node: "+why+" — accessors would report values that are not the signed ones")
 		}
 	}
 	c.Min("O4 stores to Record.node", n, 1)
@@ -829,7 +1178,7 @@ func c25NodeStores(c *an.Ctx, fPB, fNode *types.Var) {
 	for _, fn := range fns {
 		for _, ps := range an.FieldStores(fn, fPB) {
 			_, base := an.FieldOf(ps.Addr)
-			c.Check(len(an.StoresToField(fn, fNode, base)) > 0, "O4", "R-PAIR", an.FuncName(fn), "Record.pb set together with Record.node", ps.Pos(), "protobuf and decoded node of a Record are set together",
+			c.Check(len(an.StoresToField(fn, fNode, base)) > 0, "O4", "R-PAIR", an.FuncName(fn), "protobuf set together with decoded node", ps.Pos(), "protobuf and decoded node of a Record are set together",
 				"Record.pb is stored without Record.node of the same Record being set in the same function: the signed/validated protobuf and the node the accessors read can belong to different records")
 		}
 	}
@@ -987,6 +1336,7 @@ func c25Keys(c *an.Ctx, validate *ssa.Function) {
 	c.Min("O5 key-returning exits of ExtractPublicKey", n, 1)
 
 	// callers of Validate inside the package: key obtained for the same record and name, result returned
+	var keyProviders []*ssa.Function // unexported key look-up helpers found on the way (role: result is handed to Validate)
 	nCallers := 0
 	for _, fn := range p.PkgFuncs(ip) {
 		for _, call := range an.Calls(fn, an.M(ip, "-", "Validate")) {
@@ -997,7 +1347,13 @@ func c25Keys(c *an.Ctx, validate *ssa.Function) {
 			nCallers++
 			name := an.FuncName(fn)
 			recA, pkA := cv.Call.Args[0], cv.Call.Args[1]
-			kc, ok := c25RootCall(pkA, an.M(ip, "", "ExtractPublicKey"), an.M(ip, "Validator", "getPublicKey"))
+			kc, ok := c25RootCall(pkA, an.M(ip, "", ""))
+			if ok && (kc.Call.StaticCallee() == nil || kc.Call.StaticCallee().Blocks == nil || len(an.Args(kc)) != 2 || len(an.ErrResult(kc)) == 0) {
+				ok = false
+			}
+			if ok && kc.Call.StaticCallee().Name() != "ExtractPublicKey" {
+				keyProviders = append(keyProviders, kc.Call.StaticCallee())
+			}
 			if !ok {
 				c.Bad("O5", "R-FLOW", name, "Validate(rec, key-for-name)", cv.Pos(), "Validate is called with a key ("+an.PathOf(pkA)+") that is not obtained from ExtractPublicKey/getPublicKey for the name")
 				continue
@@ -1031,9 +1387,12 @@ func c25Keys(c *an.Ctx, validate *ssa.Function) {
 	c.Min("O5 in-package callers of Validate", nCallers, 1)
 
 	// getPublicKey: non-nil key results come from ExtractPublicKey(r, name) on its nil edge or from KeyBook.PubKey(name.Peer())
-	if gp := p.Func(ip, "Validator", "getPublicKey"); c.Need(gp != nil && len(gp.Params) == 3, "ipns.Validator.getPublicKey(r, name)") {
+	for _, gp := range keyProviders {
+		if len(gp.Params) < 2 {
+			continue
+		}
 		gname := an.FuncName(gp)
-		rP, nP := gp.Params[1], gp.Params[2]
+		rP, nP := gp.Params[len(gp.Params)-2], gp.Params[len(gp.Params)-1]
 		for _, r := range an.Returns(gp) {
 			if len(r.Results) != 2 || an.IsNilConst(r.Results[0]) {
 				continue
@@ -1078,6 +1437,45 @@ func c25Keys(c *an.Ctx, validate *ssa.Function) {
 
 // ---------------------------------------------------------------- deep guards (helper-following)
 
+// c25PBName is the name of the (unexported) field of ipns.Record that holds the protobuf; it is discovered by type
+// (c25RecordFields) and only used to spell access paths.
+var c25PBName = "pb"
+
+// c25NodeName: same for the field holding the decoded node.
+var c25NodeName = "node"
+
+// c25RecordFields finds the fields of ipns.Record by role: the one of type *pb.IpnsRecord and the one holding the
+// decoded DAG-CBOR node (an interface type named Node).
+func c25RecordFields(p *an.Prog) (pb, node *types.Var) {
+	n := p.Named("ipns", "Record")
+	if n == nil {
+		return nil, nil
+	}
+	st, ok := n.Underlying().(*types.Struct)
+	if !ok {
+		return nil, nil
+	}
+	for i := 0; i < st.NumFields(); i++ {
+		f := st.Field(i)
+		if an.TypeIs(f.Type(), c25PB, "IpnsRecord") {
+			pb = f
+			continue
+		}
+		if _, isIface := f.Type().Underlying().(*types.Interface); isIface {
+			if nt, ok := types.Unalias(f.Type()).(*types.Named); ok && nt.Obj().Name() == "Node" {
+				node = f
+			}
+		}
+	}
+	if pb != nil {
+		c25PBName = pb.Name()
+	}
+	if node != nil {
+		c25NodeName = node.Name()
+	}
+	return
+}
+
 // c25Env is a function together with the translation of the tracked roles into it: access paths
 // ("p:rec", "p:rec.pb") and/or sets of SSA values.
 type c25Env struct {
@@ -1111,7 +1509,7 @@ func c25Translate(e c25Env, call ssa.CallInstruction, h *ssa.Function) (c25Env, 
 			ne.path[role] = pp
 			any = true
 			if role == "rec" {
-				ne.path["pb"] = pp + ".pb"
+				ne.path["pb"] = pp + "." + c25PBName
 			}
 		}
 		for role, vs := range e.vals {
@@ -1406,7 +1804,7 @@ func c25Desc(v ssa.Value) string {
 // c25Root1 returns the single provenance root of v (through conversions,
 // extracts of type asserts, phis and local cells), or nil if there are several.
 func c25Root1(v ssa.Value) ssa.Value {
-	rs := an.Roots(v, nil)
+	rs := c29RootsF(v, 0) // also through fields of local struct variables (values carried in a small local struct)
 	if len(rs) != 1 {
 		return nil
 	}
@@ -1433,7 +1831,7 @@ func c25RootBuiltin(v ssa.Value, name string) (*ssa.Call, bool) {
 
 // c25RootsIn: every provenance root of v is one of set.
 func c25RootsIn(v ssa.Value, set []ssa.Value) bool {
-	rs := an.Roots(v, nil)
+	rs := c29RootsF(v, 0)
 	if len(rs) == 0 {
 		return false
 	}
